@@ -14,7 +14,7 @@ from ..ops import Hist
 
 F, G = "f.txt", "g.txt"
 
-OPS_WITH_UPSTREAM = ["switch-m-back", "switch-m-behind", "rebase-plain", "rebase-onto", "rebase-i-reorder", "rebase-i-squash", "rebase-i-fixup", "rebase-i-reword", "rebase-i-drop-other",
+OPS_WITH_UPSTREAM = ["switch-m-back", "switch-m-behind", "switch-m-initial", "checkout-m-initial", "rebase-plain", "rebase-onto", "rebase-i-reorder", "rebase-i-squash", "rebase-i-fixup", "rebase-i-reword", "rebase-i-drop-other",
                      "cherry-one", "cherry-range", "squash-merge", "merge-noff", "stash-pop", "stash-apply", "switch-m", "pull-rebase-autostash",
                      "ci-squash", "ci-rebase", "squash-authorship"]
 OPS_NO_UPSTREAM = ["amend-agent", "amend-message", "reset-soft", "reset-mixed", "reset-soft-2", "switch-carry", "checkout-b-carry", "stash-pop-same", "commit-dry-run", "rebase-abort",
@@ -163,6 +163,18 @@ def run_cell(case):
             s.g("checkout", "-q", "main")
             ai1()
             p = s.g("switch", "-q", "-m", "other")
+            if s.unmerged() or p.rc != 0:
+                applicable = False
+                s.g("reset", "-q", "--hard")
+        elif op in ("switch-m-initial", "checkout-m-initial"):
+            # the carried agent lines are pending only as INITIAL claims (left behind by a commit of another file): the working log of
+            # HEAD holds no checkpoint at all when `switch -m` / `checkout -m` merges the work onto the other branch
+            s.g("checkout", "-q", "-b", "other")
+            upstream_edit(s, u)
+            s.g("checkout", "-q", "main")
+            ai1(); ai2()
+            s.g("commit", "-q", "-m", "only g is committed", "--", G)
+            p = s.g(*(["switch", "-q", "-m"] if op == "switch-m-initial" else ["checkout", "-q", "-m"]), "other")
             if s.unmerged() or p.rc != 0:
                 applicable = False
                 s.g("reset", "-q", "--hard")
